@@ -1,1 +1,2 @@
 pub mod civil;
+pub mod lunar;
